@@ -1,7 +1,7 @@
 /-
 Model of `csi.Index` (csi/csi.go): Add, sort, Chunks, MergeChunks.  Core Lean only.
-`reg2bin`/`reg2bins` are parameters (`binOf`, `binsOf`); the driver passes the executable mirrors of
-`Hts.Model.Index.Local` (with the repair of DESIGN §6 #2).
+`reg2bin`/`reg2bins` are parameters (`binOf`, `binsOf`); the driver passes `Hts.Model.Coord.reg2bin`
+and `Hts.Model.Coord.reg2bins` (C16).
 -/
 import Hts.Model.Index
 namespace Hts.Model.Csi
